@@ -266,6 +266,9 @@ impl Property for C06 {
             Tier::Thorough => 800_000,
         }
     }
+    fn raw_target(&self) -> Option<(&'static str, fn(&[u8]) -> Outcome)> {
+        Some(("page_blob", fuzz_blob))
+    }
     fn rule(&self) -> String {
         "Histories as in C01 over a pool of <= 3 scripts; at a generated point a page walk is started for one address (page size 1..3 through the hook, or the real 1000 limit) and one further page is requested after every following operation (blocks on the same chain, competing forks, stabilisation, threshold changes, upgrades), the rest at the end. Oracle: the concatenation equals the model ledger as of the first response's tip (each element once, descending heights, <= limit per page, every page naming that tip), or the walk ends in an explicit error and that tip has in fact left the tree. Mutated page tokens (bit flips, truncation/extension, foreign tip hashes, height and outpoint edits, random bytes) must yield an error or an answer that is a duplicate-free, ordered sub-sequence of the ledger of the tip it names; never a trap. Non-trivial: a walk of >= 2 pages with >= 1 state-changing operation between two page requests; distinct = (tree shape at start, pages, interleaved operations, expected size) hashes.".into()
     }
